@@ -211,7 +211,13 @@ def canonicalise(tree, expected):
         nested = "/#" in key
         if nested and len(params_of(fn)) != len([e for e in exp[:len(params_of(fn))]]):
             continue
-        mapping = {c: e for c, e in zip(cur, exp) if c != e}
+        # names that are still there keep their meaning whatever the order of their first binding; only the names that disappeared are matched, in order, with the new ones
+        new_names, gone = [c for c in cur if c not in exp], [e for e in exp if e not in cur]
+        if len(new_names) != len(gone) or not gone:
+            continue
+        if nested and any((c in params_of(fn)) != (e in exp[:len(params_of(fn))]) for c, e in zip(new_names, gone)):
+            continue
+        mapping = dict(zip(new_names, gone))
         # capture check: a target name must not already mean something else inside the function
         taken = free_names(fn) | (set() if nested else set(params_of(fn)))
         if any(e in taken for e in mapping.values()) or len(set(exp)) != len(exp):
